@@ -1,0 +1,75 @@
+//go:build verif
+
+package html
+
+import (
+	"fmt"
+	"sort"
+	"strings"
+)
+
+// VerifSnapshot renders every field of a parsed tree that template execution could possibly write,
+// including the unexported caches of Tag (attrs, sorted) and the identity of attribute slices, so
+// that a verification harness can check that Execute leaves the shared tree untouched.
+// Compiled only with the build tag "verif".
+func VerifSnapshot(n *Node) string {
+	var sb strings.Builder
+	verifSnap(&sb, n)
+	return sb.String()
+}
+
+func verifSnap(sb *strings.Builder, n *Node) {
+	if n == nil {
+		sb.WriteString("nil")
+		return
+	}
+	fmt.Fprintf(sb, "(N %p tok=", n)
+	verifTok(sb, n.Token)
+	sb.WriteString(" end=")
+	verifTok(sb, n.End)
+	fmt.Fprintf(sb, " parent=%p children=%d[", n.Parent, len(n.Children))
+	for _, c := range n.Children {
+		verifSnap(sb, c)
+	}
+	sb.WriteString("])")
+}
+
+func verifTok(sb *strings.Builder, t *Token) {
+	if t == nil {
+		sb.WriteString("nil")
+		return
+	}
+	fmt.Fprintf(sb, "{%p k=%d v=%q %v-%v", t, t.Kind, t.Value, t.Start, t.End)
+	if t.Tag != nil {
+		tag := t.Tag
+		fmt.Fprintf(sb, " tag=%p name=%q sorted=%d attrs=[", tag, tag.Name, tag.sorted)
+		for _, a := range tag.Attrs {
+			fmt.Fprintf(sb, "%p:%s ", a, a.String())
+			for _, c := range a.ValueTokens {
+				fmt.Fprintf(sb, "<%p %v> ", c, c)
+			}
+		}
+		sb.WriteString("] map=")
+		if tag.attrs == nil {
+			sb.WriteString("nil")
+		} else {
+			keys := make([]string, 0, len(tag.attrs))
+			for k := range tag.attrs {
+				keys = append(keys, k)
+			}
+			sort.Strings(keys)
+			for _, k := range keys {
+				fmt.Fprintf(sb, "%q=%p,", k, tag.attrs[k])
+			}
+		}
+	}
+	sb.WriteString("}")
+}
+
+// VerifTemplates exposes the manager's template table (name -> root node) for snapshots.
+func VerifTemplates(m interface{}) map[string]*Node {
+	if tm, ok := m.(*tplManager); ok {
+		return tm.templates
+	}
+	return nil
+}
